@@ -20,7 +20,9 @@ for name in seeds:
     d = os.path.join(ROOT, "seeded", name)
     meta = json.load(open(os.path.join(d, "meta.json")))
     prop = meta["breaks_property"]
-    checks = checks_override or [c for c in dict.fromkeys([prop, "C05"]) if c in claimed]
+    # C05 (the whole-state differential of the framework) is run as a cross-check for the framework properties
+    fw_prop = prop in ("C01", "C02", "C03", "C04", "C05", "C06", "C07", "C08", "C09", "C10", "C12", "C13")
+    checks = checks_override or [c for c in dict.fromkeys([prop] + (["C05"] if fw_prop else [])) if c in claimed]
     rc, out = sh("git -C /repo apply %s/patch.diff" % d)
     if rc != 0:
         print(name, "PATCH DOES NOT APPLY", out); continue
